@@ -34,19 +34,6 @@ Proof. simpl. apply String.eqb_neq. Qed.
 Lemma nonempty_id {A} (l : list A) : (if nonempty l then l else []) = l.
 Proof. destruct l; reflexivity. Qed.
 
-Lemma replace_first_notin (x y : var) l : ~ In x l -> replace_first x y l = l.
-Proof.
-  induction l as [|v r IH]; simpl; intros n; [reflexivity|].
-  destruct (String.eqb v x) eqn:E; [apply String.eqb_eq in E; subst; tauto|].
-  f_equal. apply IH. tauto.
-Qed.
-Lemma remove_first_notin (x : var) l : ~ In x l -> remove_first x l = l.
-Proof.
-  induction l as [|v r IH]; simpl; intros n; [reflexivity|].
-  destruct (String.eqb v x) eqn:E; [apply String.eqb_eq in E; subst; tauto|].
-  f_equal. apply IH. tauto.
-Qed.
-
 (* the three ways rename_variable treats one side of the interface *)
 Lemma rename_spec_same (s u : var) l : (~ In s l \/ s = u) -> rename_list_spec s u l l.
 Proof.
@@ -465,3 +452,89 @@ Proof.
 Qed.
 
 End Facts.
+
+(* ================= F. non-vacuity ================= *)
+(* a tiny domain: a term is the list of the variables it mentions; eliminating
+   variables drops the terms that mention them; simplification is the identity *)
+Module Toy.
+Local Open Scope string_scope.
+
+Definition toy_rename (t : list var) (s u : var) : list var :=
+  map (fun x => if String.eqb x s then u else x) t.
+Definition toy_elim (a ctx : list (list var)) (vs : list var) (sp : bool) (od : list nat)
+  : M (list (list var) * stats) :=
+  inl (filter (fun t => negb (nonempty (list_intersection t vs))) a, []).
+
+Definition ToyDomain : Domain := {|
+  term := list var;
+  term_vars := fun t => t;
+  term_eqb := @list_eqb var PyEq_var;
+  term_rename := toy_rename;
+  p_elim_refine := toy_elim;
+  p_elim_relax := toy_elim;
+  p_simplify := fun s ctx => inl s;
+  p_refines := fun _ _ => inl true;
+  p_is_empty := fun _ => inl false |}.
+
+Lemma toy_domain_vars : @DomainVars ToyDomain.
+Proof.
+  split.
+  - simpl. intros s ctx r E. inversion E; subst. tauto.
+  - simpl. unfold toy_rename. intros t s u x Hx.
+    apply in_map_iff in Hx. destruct Hx as (y & Hy & Hin).
+    destruct (String.eqb y s) eqn:E.
+    + apply String.eqb_eq in E. subst. tauto.
+    + apply String.eqb_neq in E. subst. tauto.
+Qed.
+
+(* x --c1--> y --c2--> z *)
+Definition c1 : @contract ToyDomain :=
+  @Build_contract ToyDomain [["x"]] [["x"; "y"]] ["x"] ["y"].
+Definition c2 : @contract ToyDomain :=
+  @Build_contract ToyDomain [["y"]] [["y"; "z"]] ["y"] ["z"].
+(* the system-level contract x --> z *)
+Definition c12 : @contract ToyDomain :=
+  @Build_contract ToyDomain [["x"]] [["x"; "z"]] ["x"] ["z"].
+
+Ltac toy_wf :=
+  unfold wf, wf_args, subset, disjoint; simpl;
+  repeat split; try (repeat constructor; simpl; intuition discriminate);
+  intros; simpl in *; intuition (subst; try discriminate; auto).
+
+Example c1_wf : @wf ToyDomain c1.  Proof. toy_wf. Qed.
+Example c2_wf : @wf ToyDomain c2.  Proof. toy_wf. Qed.
+Example c12_wf : @wf ToyDomain c12. Proof. toy_wf. Qed.
+
+Example ex_init : exists c,
+  @IoContract_init ToyDomain [["x"]] [["x"; "y"]] ["x"] ["y"] true = inl c.
+Proof. vm_compute. eauto. Qed.
+Example ex_compose : exists c st,
+  @IoContract_compose_tactics ToyDomain c1 c2 None true None = inl (c, st) /\
+  c_inputvars c = ["x"] /\ c_outputvars c = ["z"].
+Proof. vm_compute. eauto. Qed.
+Example ex_compose_keep : exists c st,
+  @IoContract_compose_tactics ToyDomain c1 c2 (Some ["y"]) true None = inl (c, st) /\
+  c_inputvars c = ["x"] /\ c_outputvars c = ["z"; "y"].
+Proof. vm_compute. eauto. Qed.
+Example ex_quotient : exists q st,
+  @IoContract_quotient_tactics ToyDomain c12 c1 None true None = inl (q, st) /\
+  c_inputvars q = ["y"] /\ c_outputvars q = ["z"].
+Proof. vm_compute. eauto. Qed.
+Example ex_merge : exists m,
+  @IoContract_merge ToyDomain c1 c12 = inl m /\
+  c_inputvars m = ["x"] /\ c_outputvars m = ["y"; "z"].
+Proof. vm_compute. eauto. Qed.
+Example ex_rename : exists c,
+  @IoContract_rename_variable ToyDomain c1 "x" "w" = inl c /\
+  c_inputvars c = ["w"] /\ c_outputvars c = ["y"] /\ c_a c = [["w"]].
+Proof. vm_compute. eauto 10. Qed.
+Example ex_copy : exists c, @IoContract_copy ToyDomain c1 = inl c.
+Proof. vm_compute. eauto. Qed.
+(* and the rejections do fire *)
+Example ex_reject : @IoContract_compose_tactics ToyDomain c1 c1 None true None = inr IncompatibleArgs.
+Proof. vm_compute. reflexivity. Qed.
+End Toy.
+
+Print Assumptions compose_iface.
+Print Assumptions quotient_iface.
+Print Assumptions init_rejects.
